@@ -237,7 +237,9 @@ def run(pid, tier, t0, which, seed_extra, ctl=True):
             "trace_tlc": {k: st[k] for k in st if k != "extra"}, "exhaustive": False,
         },
         ["VyMachine is partial on purpose: runs that leave the written rules are counted as skip:undefined, not evaluated",
-         "lazily evaluated lambda bodies are evaluated eagerly by the model; generators keep them pure",
+         "lazily evaluated PURE lambda bodies are evaluated at once by the model (unobservable); impure map / filter "
+         "lambdas make heap cells (DeferredMap) that are produced when printed or turned into text, may be copied, moved "
+         "and dropped; any other use of such a value is skip:undefined",
          "reference = documents/specs/Structures.md + the named deviations listed in spec/VyMachine.tla"],
         len(V.violations),
     )
